@@ -469,16 +469,22 @@ class Gen:
 
             elem_files = [0] + [j for j in set(f0.imports) if j != 0 and r.random() < 0.5]
 
-            def make_message(nheaders):
+            def make_message(nheaders, reuse_part_names=()):
                 parts = []
                 pn = set()
+                reuse = list(reuse_part_names)
                 body_el = new_element(elem_files)
                 els = [("body", body_el)] + [("header", new_element(elem_files)) for _ in range(nheaders)]
                 r.shuffle(els)
                 body_part = None
                 headers = []
                 for role, g in els:
-                    if r.random() < cfg["p_part_name_differs"]:
+                    if reuse and r.random() < 0.6 and reuse[0].snake not in pn:
+                        # the same part name as in the operation's other message, for another element
+                        nm = reuse.pop(0)
+                        pn.add(nm.snake)
+                        self.features.add("part-name-shared-between-input-and-output")
+                    elif r.random() < cfg["p_part_name_differs"]:
                         nm = names.fresh(pn)
                     else:
                         nm = Name(g.name.words, g.name.style)
@@ -500,7 +506,7 @@ class Gen:
             op.in_parts_attr = r.random() < cfg["p_parts_attr"]
             if r.random() >= cfg["p_oneway"] or "one-way" in self.q:
                 nh_out = r.randrange(cfg["headers"][0], cfg["headers"][1] + 1)
-                m_out, body_out, h_out = make_message(nh_out)
+                m_out, body_out, h_out = make_message(nh_out, [pt.name for pt in m_in.parts])
                 op.output, op.out_body, op.out_headers = m_out, body_out, h_out
                 op.out_parts_attr = r.random() < cfg["p_parts_attr"]
             else:
